@@ -14,6 +14,18 @@ PRIMS = {"Deallocate"}   # retargeting the storage field (allocate/setStorage) k
 HANDOVER = {"Detach"}    # the caller becomes the owner of the returned block
 
 
+def allocator_methods(m):
+    """methods of the owning classes that return a block they have just allocated (they call Memory::Allocate themselves)"""
+    out = set()
+    for f in m.functions:
+        if f.inst or f.cls not in OWNERS or f.is_static:
+            continue
+        rt = (f.d.get("ret") or "").strip()
+        if rt.endswith("*") and any(f.call_simple_name(c) in ("Allocate", "AllocateAligned") for c in astq.calls(f)):
+            out.add(f.name)
+    return out
+
+
 def interior_accessors(m):
     """methods of the owning classes that return a pointer into the container's storage (found from the model: non-static
     members with a pointer return type), and their reference-to-pointer out-parameters: name -> [parameter index]"""
@@ -260,7 +272,7 @@ def owner_of_type(t):
     return None
 
 
-def analyse_fn(m, f, rel, summ=None, fsumm=None, alias_params=False, acc=None, outp=None, destroys=None):
+def analyse_fn(m, f, rel, summ=None, fsumm=None, alias_params=False, acc=None, outp=None, destroys=None, fresh=None):
     """returns list of (node id, pointer name, container text, releasing call text)"""
     if not f.cfg:
         return [], 0
@@ -301,6 +313,8 @@ def analyse_fn(m, f, rel, summ=None, fsumm=None, alias_params=False, acc=None, o
         if n["k"] in ("CallExpr", "CXXMemberCallExpr") and f.call_simple_name(s) in acc:
             key, owner = container_key(f.call_receiver(s))
             if key and owner:
+                if f.call_simple_name(s) in (fresh or ()):
+                    return key + "#fresh", owner    # the block just allocated, not the one the earlier pointers refer to
                 return key, owner
         if n["k"] == "UnaryOperator" and n["op"] == "&":
             sub = f.nodes[f.strip(n["ch"][0])]
@@ -526,7 +540,9 @@ def analyse_fn(m, f, rel, summ=None, fsumm=None, alias_params=False, acc=None, o
             a0 = f.nodes[f.strip_casts(a[0])] if a else {}
             if a0.get("k") == "DeclRefExpr" and a0.get("d") in ptr_locals:
                 keys = {x[1] for x in st if x[0] == a0["d"]}
-                st = {(d, kk, "stale" if (d == a0["d"]) else s_, f.text(nid) if d == a0["d"] else w, fc) for (d, kk, s_, w, fc) in st}
+                # the whole block goes: every pointer into the same (old) storage dies with it
+                st = {(d, kk, "stale" if (d == a0["d"] or (kk in keys and kk != "?" and not kk.endswith("#fresh"))) else s_,
+                       f.text(nid) if (d == a0["d"] or (kk in keys and kk != "?" and not kk.endswith("#fresh") and s_ == "valid")) else w, fc) for (d, kk, s_, w, fc) in st}
                 if not keys:
                     st.add((a0["d"], "?", "stale", f.text(nid), frozenset()))
         if destroys and derived and k == "CXXMemberCallExpr":
@@ -537,8 +553,8 @@ def analyse_fn(m, f, rel, summ=None, fsumm=None, alias_params=False, acc=None, o
                 st = {(d, kk, "stale" if (kk == key and d in derived) else s, why if (kk == key and d in derived and s == "valid") else w, fc) for (d, kk, s, w, fc) in st}
         if k in ("CallExpr", "CXXMemberCallExpr", "CXXOperatorCallExpr", "CompoundAssignOperator", "BinaryOperator"):
             for (key, why) in releases(e):
-                st = {(d, kk, "stale" if (kk == key or alias_of.get(kk) == key) else s,
-                       (why + (" (when `%s` is the object itself)" % kk if kk != key else "")) if (kk == key or alias_of.get(kk) == key) and s == "valid" else w, fc) for (d, kk, s, w, fc) in st}
+                st = {(d, kk, "stale" if (kk == key or kk == key + "#fresh" or alias_of.get(kk) == key) else s,
+                       (why + (" (when `%s` is the object itself)" % kk if kk != key else "")) if (kk == key or kk == key + "#fresh" or alias_of.get(kk) == key) and s == "valid" else w, fc) for (d, kk, s, w, fc) in st}
         return frozenset(st)
 
     it = 0
@@ -575,8 +591,8 @@ def analyse_fn(m, f, rel, summ=None, fsumm=None, alias_params=False, acc=None, o
     return [(nid, v[0], v[1], v[2]) for nid, v in sorted(findings.items())], len(borrows)
 
 
-def rule_borrow(ctx, m, files, extra_fns=(), rid="BORROW", alias_params=False):
-    r = Rule(rid, "no storage pointer borrowed from a container is used after a call that may release/reallocate it", floor=1)
+def rule_borrow(ctx, m, files, extra_fns=(), rid="BORROW", alias_params=False, allow_empty=False):
+    r = Rule(rid, "no storage pointer borrowed from a container is used after a call that may release/reallocate it", floor=0 if allow_empty else 1)
     rel = may_release_sets(m)
     if "Qentem::StringStream" not in rel or "expand" not in rel["Qentem::StringStream"] or "Write" not in rel["Qentem::StringStream"]:
         r.broke("could not derive the releasing methods of StringStream (expand not found)")
@@ -585,6 +601,8 @@ def rule_borrow(ctx, m, files, extra_fns=(), rid="BORROW", alias_params=False):
     fsumm = field_release_summaries(m, rel)
     acc, outp = interior_accessors(m)
     destroys = destroys_elements_sets(m)
+    fresh = allocator_methods(m)
+    r.notes.append("allocating accessors (their result is the new block): " + ",".join(sorted(fresh)))
     r.notes.append("element-destroying methods: " + "; ".join("%s: %s" % (k.split("::")[-1], ",".join(sorted(v))) for k, v in sorted(destroys.items()) if v))
     r.notes.append("interior-pointer accessors: " + ",".join(sorted(acc)))
     fns = [f for f in m.functions if not f.inst and any(f.file.endswith(x) for x in files)]
@@ -592,7 +610,7 @@ def rule_borrow(ctx, m, files, extra_fns=(), rid="BORROW", alias_params=False):
         fns += m.fns(q, pattern=True, required=False)
     total_borrows = 0
     for f in fns:
-        found, nb = analyse_fn(m, f, rel, summ, fsumm, alias_params, acc, outp, destroys)
+        found, nb = analyse_fn(m, f, rel, summ, fsumm, alias_params, acc, outp, destroys, fresh)
         total_borrows += nb
         if nb:
             ctx.note_fn(f)
@@ -605,6 +623,6 @@ def rule_borrow(ctx, m, files, extra_fns=(), rid="BORROW", alias_params=False):
             seen.add((p, key, why))
             r.ob(f.q, "%s (from %s) after %s" % (p, key, why), False,
                  "`%s` points into the storage of `%s`, which `%s` may release or reallocate; it is used afterwards" % (p, key, why), f.loc(nid))
-    if total_borrows == 0:
+    if total_borrows == 0 and not allow_empty:
         r.broke("no borrowed storage pointer found in scope (%s)" % ", ".join(files))
     return r
